@@ -76,6 +76,29 @@ json generate(uint64_t seed, uint64_t idx, int tier)
 		plan["frozen"] = json::array({"schemas"});
 		return plan;
 	}
+	// half of the plans register some validators through cfg_set_validate_func(path) instead of the declaration
+	json registered = json::array();
+	if (r.chance(1, 2)) {
+		std::function<void(json &, const std::string &, bool)> move = [&](json &opts, const std::string &prefix, bool under_multi) {
+			for (auto &o : opts) {
+				std::string path = prefix + o["n"].get<std::string>();
+				if (o.value("vcb", 0) && r.chance(1, 2)) {
+					o.erase("vcb");
+					registered.push_back(path);
+				}
+				if (o.contains("sub"))
+					move(o["sub"], path + "|", under_multi || (o.value("fl", 0) & F_MULTI));
+			}
+		};
+		move(schema["opts"], "", false);
+		plan["schemas"] = json::array({schema});
+		for (auto &pth : registered) {
+			json sv = step(0, "setvalidate", 0);
+			sv["name"] = pth;
+			sv["keep"] = 1;
+			steps.push_back(sv);
+		}
+	}
 	TextGen tg;
 	tg.max_items = tier ? 9 : 6;
 	tg.ctx_flags = flags;
@@ -87,7 +110,7 @@ json generate(uint64_t seed, uint64_t idx, int tier)
 	p["keep"] = 1;
 	steps.push_back(p);
 	plan["steps"] = steps;
-	plan["params"] = {{"kind", "parse"}, {"enumerate", "cb"}};
+	plan["params"] = {{"kind", "parse"}, {"enumerate", "cb"}, {"registered", registered}};
 	plan["frozen"] = json::array({"schemas"});
 	return plan;
 }
@@ -181,7 +204,37 @@ JudgeOut judge(const json &plan)
 	if (main_step < 0 || !steps[main_step]["src"].contains("chunks"))
 		return out;
 	const json &chunks = steps[main_step]["src"]["chunks"];
-	const json &sopts = plan["schemas"][0]["opts"];
+	// effective schema: validators registered by path count as declared ones
+	json sopts_eff = plan["schemas"][0]["opts"];
+	if (params.contains("registered"))
+		for (auto &pth : params["registered"]) {
+			bool still_registered = false; // the registration step may have been removed by the minimiser
+			for (auto &st : steps)
+				if (st["op"] == "setvalidate" && st.value("name", std::string()) == pth.get<std::string>())
+					still_registered = true;
+			if (!still_registered)
+				continue;
+			std::string path = pth.get<std::string>();
+			json *cur = &sopts_eff;
+			size_t pos;
+			while ((pos = path.find('|')) != std::string::npos) {
+				std::string head = path.substr(0, pos);
+				path = path.substr(pos + 1);
+				json *next = nullptr;
+				for (auto &o : *cur)
+					if (o["n"] == head && o.contains("sub"))
+						next = &o["sub"];
+				if (!next)
+					break;
+				cur = next;
+			}
+			for (auto &o : *cur)
+				if (o["n"] == path) {
+					o["vcb"] = 1;
+					out.k.add("probe.validator_registered_by_path");
+				}
+		}
+	const json &sopts = sopts_eff;
 	std::vector<Ev> exp = expected_events(sopts, chunks);
 
 	json clean = plan;
@@ -343,7 +396,7 @@ Property P = [] {
 			 "validators must run at least once after each stored value and before the next callback-visible item; the extra invocation at the closing brace of a list is accepted but not required",
 			 "for run k: the option assigned by the failing item is a don't-care (O-prefix); only top-level option blocks are compared with the parse of the items before it",
 			 "a plan whose fault-free text is not accepted is discarded and counted"};
-	p.probes = {"value_callback_invoked", "function_callback_invoked", "validator_invoked", "validator_rewrote_value"};
+	p.probes = {"value_callback_invoked", "function_callback_invoked", "validator_invoked", "validator_rewrote_value", "validator_registered_by_path"};
 	p.components = {{"confuse.c parser / cfg_setopt / setters", "real"}, {"lexer", "real"}, {"value, validation, pre-set validation, function and release callbacks", "stub: simulator parties whose verdicts come from the plan"}};
 	p.quick_seconds = 20;
 	p.thorough_seconds = 400;
